@@ -11,7 +11,7 @@
  "cbmc": ["--unwindset", "humansize_wrapped_for_contract_checking.0:7", "--property", "humansize.postcondition.8", "--property", "h_hs_format_val_lo.assertion.1", "--property", "h_hs_format_val_lo.assertion.2"],
  "models": ["models/num_asprintf.c", "models/libc_string.c"],
  "timeout": 900,
- "assumptions": ["this group decides the two value clauses of humansize()'s contract (printed value <= size < next representable value; selected with --property) for EVERY 64-bit size, with kissat (about 2 minutes per clause; the default SAT back end and z3 do not finish); all other obligations of humansize(): group C16/hs_format",
+ "assumptions": ["this group decides ONE value clause of the contract of humansize(), \"printed value <= size\" (humansize.postcondition.8), selected with --property, for EVERY 64-bit size, with kissat (1-2.5 minutes; the default SAT back end and z3 do not finish); all other obligations of humansize(): group C16/hs_format",
                  "asprintf as modelled in models/num_asprintf.c: what is printed is observed through the recorded format kind and int/char arguments (C11 7.21.6.1 meaning of %d and %c); the characters of the result are not modelled",
                  "the division loop of humansize() is unwound 7 times with an unwinding assertion: a 64-bit size needs at most 5 divisions by 1000 after the division by 100, so this is complete, not a bound on the input",
                  "warn()/warnx() of util/warnp.c do nothing"]
